@@ -437,6 +437,7 @@ func newLeaf(parent Tree, r *Route, s *Segment, h Handler) (Leaf, error) {
 		if _, exists := parentBindSet[bind]; exists {
 			return nil, errors.Errorf("duplicated bind parameter %q in position %d", bind, s.Pos.Offset)
 		}
+		parentBindSet[bind] = struct{}{} // Also catch duplicates within the segment
 	}
 
 	return &regexLeaf{
